@@ -12,169 +12,90 @@ Definition show_fres (r : fres) : string :=
   end.
 Definition check (rs : list rune) : string := digest (show_fres (format_res rs)).
 Definition full (rs : list rune) : string := show_fres (format_res rs).
-Eval vm_compute in ("<<<M1736>>>" ++ check (runes_of_ascii "// top
-options  // c0a
-// c0b
+Eval vm_compute in ("<<<M1778>>>" ++ check (runes_of_ascii "MetaData asx {
+    char[] MetaDataX,
+    lengthOf Z9_,
+    crc Foo,
+    char[4294967296] BodyLength,
+    Foo leftPad `doc`,
+    tag u128,
+}
 
-	{	// c1
-ArrayPrefixLenType 
+root packet stringy {
+    // trailing space 
+    match Header as repeatCount {
+        [""{,}""] : Header,
+        255 : repeatCount,
+        00 : pack,
+        1 : trueish,
+        7 : A,
+    },
+    T {
+        Z9_ `
+        `,
+    },
+    int16 o @calculatedFrom(""it's"") `line1
+    line2`,
+    match zchar as As {
+        ""CRC32"" : a1,
+        42 : Header,
+        [10] : zchar,
+    },
+    @tag(42)
+    repeat i64_ {
+        // c
+        char[00] _x `{ , }`,
+    },
+    repeat char[] uint8x `crlf
+    line`,
+    @leftPad('\x00')
+    @tag(7)
+    int32 repeatCount @calculatedFrom(""x y"") `// not a comment`,
+    u32 zchar `
+    `,
+    repeat stringy {
+        i8i8 lengthOf,
+    },// packet A { u8 x, }
+    @calculatedFrom(""abc"")
+    @lengthOf(tag)
+    @lengthOf(rootA)
+    char[3] rootA `" ++ [233]%N ++ runes_of_ascii "`,// c
+}
 
-    // c2
-=
+MetaData crc {
+    float32 asx `" ++ [233]%N ++ runes_of_ascii "`,
+    string i64_,
+}
 
-// c3
-    	u64  // c4a
-      // c4b
-		;// c5
-    FixedStringPadFromLeft
+root packet Packet {
+    charz @lengthOf(zchar),
+    f32 f32a `{ , }`,
+    i64 matchKey @lengthOf(leftPad),
+    string trueish,
+    @leftPad('0')
+    // trailing space 
+    tag @lengthOf(string_) `doc`,
+    match stringy as calculatedFrom {
+        [0123456789] : repeatCount,
+    },// trailing space 
+    char[3] Header,
+    int64 MetaDataX,
+    @leftPad()
+    len {
+        packetx @lengthOf(chars) ``,
+    },
+    @rightPad('0')
+    x_y_z,
+}
 
-    // c6
-		= true 
-    // c8
-  ;  // c9a
-
-// c9b
-    FixedStringPadChar// c10
-    =  
-  // c11
-
-	'0'
-	    // c12
-
-; } 
-// c14
-    packet
-    // c15
-
-Quote 	 // c16
-
-{	// c17a
-      // c17b
-    }  // c18a
-		// c18b
-packet	// c19
-    Ack// c20a
-      // c20b
-    	{
-
-    repeat  // c22
-  InNote66 {  // c24a
-// c24b
-    u8 	 // c25a
-    	// c25b
-	  pad0 	 // c26
-
-, 
-
-    // c27
-	}// c28
-
-, // c29
-	}	// c30
-
-  packet 
-// c31
-  Reject	// c32a
-	// c32b
-	{ 
-// c33
-	}// c34a
-    // c34b
-    	root  // c35
-	  packet// c36a
-    // c36b
-      Order
-// c37
-    {  // c38
-
-  Quote // c39
-,
-	repeat // c41
-    Reject ,// c43a
-  	// c43b
-    string
-// c44
-  venue
-
-    // c45
-  ,
-
-string
-    // c47
-
-	seqNo// c48a
-	// c48b
-		, // c49
-  uint32
-    // c50
-      Ref	// c51a
-		// c51b
-,	// c52a
-  // c52b
-	u16  // c53a
-	// c53b
-	lastPx
-
-// c54
-  	,
-
-    // c55
-  u32  // c56a
-// c56b
-	  clOrdID 	 // c57
-  @lengthOf(
-    // c58
-	Body)	// c60
-  ,  // c61a
-// c61b
-	match
-
-// c62
-
-lastPx 	 // c63
-as// c64a
-
-	// c64b
-Body 	 // c65a
-  // c65b
-		{
-    190 // c67
-    : // c68a
-// c68b
-Reject // c69
-      ,
-// c70
-  186:	// c72a
-
-  // c72b
-
-Quote
-	,
-
-    // c74
-		22
-: 
-      // c76
-  Ack 
-    // c77
-  , 	 // c78
-
-  }	// c79
-, 
-
-    // c80
-    u16 // c81a
-      // c81b
-    Flags// c82
-@calculatedFrom(// c83a
-		// c83b
-  ""CRC32""
-	) ,	// c86
-} 	 // c87a
-
-// c87b
-")).
-Eval vm_compute in ("<<<M1786>>>" ++ check (runes_of_ascii "
+options {
+    rootA = '0';
+    Foo = char;
+    A = zchar[0123456789];
+    packetx = """ ++ [233]%N ++ runes_of_ascii "t" ++ [233]%N ++ runes_of_ascii """
+    float = true
+}//x")).
+Eval vm_compute in ("<<<M1787>>>" ++ check (runes_of_ascii "
 // trailing space 
     packet 
 charz
@@ -316,113 +237,105 @@ msg_type
   	Logon  ,
 }
 ")).
-Eval vm_compute in ("<<<M8>>>" ++ check (runes_of_ascii "// @lengthOf(
-packet Pad { zchar[
-    0 ]Header @calculatedFrom(
-""a	b"" ) // " ++ [27880; 37322]%N ++ runes_of_ascii "
-`say ""hi""` , @calculatedFrom(
-    ""a\""b"" // a // b
-)  body @lengthOf( body// `tick` ""quote"" 'q'
-)`say ""hi""` , u16 stringy@lengthOf(
-    // trailing space 
-    trueish ) , @lengthOf( rootA) f64 Foo `say ""hi""` // c
-,u16 Z9_ , x_y_z , }
-    MetaData metadata { uint64 x , trueish chars//
-,
-    asx lengthOf `u8 x,`  ,
-} options { body // a // b
-=	""packet"" } root
-    packet MetaDataX {zchar[
-42	]
-a1
-,Packet x_y_z // " ++ [27880; 37322]%N ++ runes_of_ascii "
-, u8 Foo
-    `u8 x,` , u64
-//	t
-/// triple
-tag, @tag( 1 //x
-)  string x_y_z @calculatedFrom( ""x y"" ) ,f32 Logon	, _x ,charz // a // b
-{
-    rootA metadata `crlf
-line`
-    , Header @calculatedFrom( ""\" ++ [233]%N ++ runes_of_ascii """ ) `` ,
-i64_`line1
-line2`
+Eval vm_compute in ("<<<M1876>>>" ++ check (runes_of_ascii "packet x {
+    //x
+    lengthOf @calculatedFrom(""abc"") `u8 x,`,
+    @rightPad()
+    //x
     // @lengthOf(
-    , } ,@lengthOf(
-a1// `tick` ""quote"" 'q'
-) string
-As	`doc`
-    , @tag(
-1 ) match As
-    as	trueish
-    //	t
-    {
-    [ ""`tick`""
+    float32 Packet @lengthOf(falsey),
+    char[10] falsey,
+    @tag(3)
+    repeat zchar[4294967296] repeatCount,
+    repeatCount `say ""hi""`,
+    int16 u128,
+    char[3] crc @calculatedFrom(""x y""),// trailing space 
+    @leftPad('\x00')
+    match chars as i8i8 {
+        42 : charz,
+    },
+}
+
+options {
+}
+
+MetaData metadata {
+    char[4294967296] i8i8,
+    float rootA,
+    i64 packetx,
+    i8 roots `crlf
+        line`,
+    tag i64_,
+    uint8 Pad `" ++ [233]%N ++ runes_of_ascii "`,
+}
+
+root packet Header {
+    u64 options1 `two words`,
+    @calculatedFrom(""a\\"")
+    // " ++ [128512]%N ++ runes_of_ascii " emoji
+    i32 x_y_z @calculatedFrom(""a\""b"") `tab	here`,
+    match A as len {
+        [""CRC32"", ""it's""] : Z9_,
+        ""a	b"" : o,
+    },
+    match asx as pack {
+        0 : x_y_z,
+    },
+    char[] i64_ `{ , }`,
+}
+
+MetaData stringy {
     // trailing space 
-    ] :charz,  ""packet"": asx , 42  :
-packetx, [ ""a\\"" ] :
-u }
-,
-}
-/// triple
-")).
-Eval vm_compute in ("<<<M1791>>>" ++ check (runes_of_ascii "options {
-    StringPrefixLenType = u64;
-    ArrayPrefixLenType = u32;
-    FixedStringPadFromLeft = false;
-}
-
-packet Party {
-    zchar[7] OrderId,
-    InTail6 {
-        repeat char[1] msgKind,
-        char[3] Tail,
-        char[3] Flags,
-        i16 tag7,
-    },
-    @rightPad('0')
-    char[12] clOrdID,
-}
-
-packet Quote {
-    @leftPad('0')
-    char[11] price,
-    repeat InCount7 {
-        i32 x,
-        Party,
-        u8 Ref,
-        u8 tag7,
-    },
-    char[] seqNo,
-    Party,
-}
-
-packet Logon {
-    @rightPad('\x00')
-    char[5] Note,
-    i16 sym,
-    InPrice72 {
-        char[9] Ref,
-        zchar[1] venue,
-    },
-    char[] clOrdID,
-}
-
-root packet Reject {
-    repeat Logon,
-    @leftPad(' ')
-    char[4] seqNo,
-    zchar[5] Acct,
-    u32 x,
-    u16 f1 @lengthOf(Body),
-    match x as Body {
-        [169, 74] : Quote,
-        45 : Party,
-        7 : Logon,
-    },
+    lengthOf o,
+    string u8x,
+    f32 string_ `doc`,
 }")).
-Eval vm_compute in ("<<<M1863>>>" ++ check (runes_of_ascii "  packet
+Eval vm_compute in ("<<<M1487>>>" ++ check (runes_of_ascii "options {
+    matchKey = ""x y"";
+    MetaDataX = '0';
+}
+
+packet msg_type {
+    @rightPad(' ')
+    repeat u128 body,
+    match body as pack {
+        [""\" ++ [233]%N ++ runes_of_ascii """, ""1""] : BodyLength,
+        [
+            255, ""a	b"", ""a\\"", ""{,}"", 007,
+            007, 0123456789
+        ] : options1,
+    },
+    @leftPad()
+    @lengthOf(charz)
+    @tag(42)
+    o {
+        i32 msg_type @lengthOf(A) `doc`,
+        zchar[1] charz,// c
+        i8 packetx `{ , }`,
+        msg_type `crlf
+        line`,
+    },
+    @calculatedFrom(""\" ++ [233]%N ++ runes_of_ascii """)
+    Z9_ @calculatedFrom(""" ++ [128512]%N ++ runes_of_ascii """) `tab	here`,
+    repeat char[] Foo,
+    repeat zchar[0123456789] u128,
+}
+
+packet f32a {
+    f32a @lengthOf(matchKey),
+    @rightPad(' ')
+    @lengthOf(chars)
+    _x Foo ``,
+    match body as body {
+        [4294967296, ""packet"", 3, """ ++ [128512]%N ++ runes_of_ascii """, 0123456789] : T,
+        [""a\\""] : T,
+        ""\n"" : u8x,
+    },
+}//x
+
+root packet lengthOf {
+}")).
+Eval vm_compute in ("<<<M1873>>>" ++ check (runes_of_ascii "  packet
 	falsey
 	{	// `tick` ""quote"" 'q'
 repeat
@@ -499,211 +412,159 @@ zchar= """"
 
     } //
 ")).
-Eval vm_compute in ("<<<M93>>>" ++ check (runes_of_ascii "packet float { char[]
-    u8x
-@lengthOf( roots ) ,
-}MetaData leftPad	{ string
-    // `tick` ""quote"" 'q'
-    a1, }root
-packet // " ++ [27880; 37322]%N ++ runes_of_ascii "
-pack { falsey,
-    /// triple
-    match Logon
-as // " ++ [128512]%N ++ runes_of_ascii " emoji
-trueish
-{""packet""
-    : Foo ,"""" : len, 0123456789: i64_ , ""it's"" : packetx
-    ,
-    255
-    : len
-, }
-    , repeat
-As As `" ++ [233]%N ++ runes_of_ascii "` , @tag( 3  ) uint32 a1
-, repeat  zchar[ 4294967296]
-pack	,@leftPad (' ' )  zchar  @lengthOf( string_ ) `// not a comment` , repeat int ,
-repeat
-i8i8 // " ++ [27880; 37322]%N ++ runes_of_ascii "
-{ u64
-    // a // b
-    tag `say ""hi""`	,u8x , char trueish  , repeat // packet A { u8 x, }
-float32
-    stringy `line1
-line2` ,} ,match o
-as	o { 007  : float },
-// packet A { u8 x, }
-// c
-repeat
-    Pad ,
-// " ++ [27880; 37322]%N ++ runes_of_ascii "
-// trailing space 
-}")).
-Eval vm_compute in ("<<<M58>>>" ++ check (runes_of_ascii "packet pack
-// c
-// packet A { u8 x, }
-{u8 a1
-// trailing space 
-/// triple
-`say ""hi""` // packet A { u8 x, }
-, @leftPad (
-'\x00' )  uint8 Logon	`
-` // `tick` ""quote"" 'q'
-,
-char[]lengthOf // " ++ [27880; 37322]%N ++ runes_of_ascii "
-`" ++ [233]%N ++ runes_of_ascii "` ,
-//
-//x
-repeat char[] As,
-    //	t
-    @lengthOf(string_ )  @calculatedFrom(
-""a\\"" )
-    repeat
-    u8x	o	, char string_ @calculatedFrom(
-""a\""b"" )
-`tab	here`
-    , repeat As { char[
-    // packet A { u8 x, }
-    0 ] i64_//	t
-@lengthOf( T)
-`" ++ [233]%N ++ runes_of_ascii "` , char[4294967296	]
-T @calculatedFrom( ""\" ++ [233]%N ++ runes_of_ascii """ )
-, trueish
-, repeat int
-{string Logon @calculatedFrom(	""1"" ) , metadata  ,
-uint32
-Z9_  , // " ++ [27880; 37322]%N ++ runes_of_ascii "
-} , },@tag( 00 ) //	t
-i16  a1 `a\`
-    ,
-    }
-")).
-Eval vm_compute in ("<<<M1893>>>" ++ check (runes_of_ascii "
-packet  charz
-{  
-  // " ++ [27880; 37322]%N ++ runes_of_ascii "
-	/// triple
-    repeat	// c
-      string
-
-    int
-
-    `" ++ [28040; 24687; 31867; 22411]%N ++ runes_of_ascii "` ,  @calculatedFrom(
-""it's"" )
-@tag(
-
-255 ) 
-f64 	 // a // b
-    asx
-
-    ,string
-    T`doc` , zchar[
-
-    007 
-]
-	tag @lengthOf(//
-    Z9_	)
-`// not a comment`
-, } options	{
-
-u
-=
-u16;}	MetaData
-	chars
-
-    { i16
-falsey 
-,	f64
-pack ,
-
-char[ 
-1
-
-    ]
-    asx	`it's`
-	,
-char[] body
-, 
-	    // `tick` ""quote"" 'q'
-
-  //x
-
-  }  packet
-	leftPad
-    {  @rightPad
-
-    (
-// @lengthOf(
-    //x
-) repeat  Pad  float`{ , }` ,  } options
-
-    {
-
-roots
-    =
-    true ;
-
-    }
-")).
-Eval vm_compute in ("<<<M1348>>>" ++ check (runes_of_ascii "  options
-{ ArrayPrefixLenType = u64
-    ; FixedStringPadFromLeft = true
-    ;
-
-    FixedStringPadChar 
-=	'0'
-	;
-}
-packet Quote
-    {}
-
+Eval vm_compute in ("<<<M219>>>" ++ check (runes_of_ascii "
 packet
-Ack	{ repeat
-	InNote66
-    {
-u8
-pad0 ,}
-, }packet
-    Reject
-
-    {
-	}
-
-    root packet
-    Order
-	{	Quote
-
-, repeat	Reject ,
-
-string
-
-venue,
-string
-seqNo,uint32	Ref
-	, 
-u16
-lastPx
-, 
-u32 clOrdID
-@lengthOf(Body)
-
+falsey{ // `tick` ""quote"" 'q'
+repeat charz
+    /// triple
+    float // a // b
+`tab	here`
+    ,
+char[]stringy  , Logon
+    f32a,
+    char[] string_/// triple
 ,
-
-    match 
-lastPx as
-
-    Body { 
-190 
-:
-Reject ,
-    186
-
-: Quote,  22:
-Ack
-
-,
-    }
-,u16  Flags @calculatedFrom(  ""CRC32""
-
-    ),	}")).
+int16
+_x
+`` ,
+    match/// triple
+crc as stringy { ""abc"" :Pad
+    [ ""\n"" , 10, 4294967296, 0123456789 , ""abc"" ,	""" ++ [28040; 24687]%N ++ runes_of_ascii """
+    ] :
+i8i8 , 10 :
+    //x
+    Header , 10:// c
+calculatedFrom
+    , 0123456789: charz
+10
+    :
+    repeatCount} ,
+    leftPad @lengthOf(
+u8x )  , @lengthOf(a1) repeat x body ,
+} MetaData
+string_
+{ float64  f32a	, zchar[
+255] T, u32 trueish, BodyLength roots
+`two words` , }
+// " ++ [128512]%N ++ runes_of_ascii " emoji
+//	t
+packet stringy{ zchar[
+    255
+    ]Foo ,
+}
+MetaData
+leftPad {
+    } //
+options { x //x
+=
+true
+    ;
+zchar = """" } //")).
+Eval vm_compute in ("<<<M78>>>" ++ check (runes_of_ascii "options {
+Header	=u32; } options {
+i8i8	=
+    f64 ; body
+    =  zchar[
+// " ++ [128512]%N ++ runes_of_ascii " emoji
+/// triple
+00//
+] ; }
+    //
+    MetaData BodyLength  { // trailing space 
+}// " ++ [27880; 37322]%N ++ runes_of_ascii "
+options
+{ Logon= u64 As =
+    true i64_
+= '\x00' ;
+} root packet asx {
+@tag(
+// `tick` ""quote"" 'q'
+//	t
+4294967296
+    )
+    roots @lengthOf( A ) ,repeat uint8 u128
+    , int32 i64_  ,
+    u8 u `` ,
+@lengthOf(
+// c
+// c
+len ) uint64
+    //x
+    matchKey ,	match rootA
+    as stringy {
+1 : string_, 7 : charz , 255 : u128, [ // trailing space 
+0
+,0123456789 ,1,007  ]: len
+    , 10
+    :trueish } ,
+@rightPad	()
+    char[ 7] int //
+@lengthOf(
+x ) `two words`
+, }")).
+Eval vm_compute in ("<<<M348>>>" ++ check (runes_of_ascii "root // c
+packet asx { @rightPad
+    (
+' ' ) @lengthOf(  int)@tag( 0 ) u64 uint8x @calculatedFrom( ""packet"")
+    ,  uint32 i64_ ,
+    // c
+    repeat options1 o,match f32a as /// triple
+falsey// " ++ [27880; 37322]%N ++ runes_of_ascii "
+{ 42 : stringy 10 :
+As, """" :
+    Packet ,
+} ,@calculatedFrom(""it's""
+) // " ++ [128512]%N ++ runes_of_ascii " emoji
+f64	a1 ,
+    @lengthOf(
+    tag )
+    match roots as MetaDataX
+{
+""" ++ [128512]%N ++ runes_of_ascii """:  f32a
+    , ""\n"" :
+    As [ 255 ]: A ,  }, a1 @calculatedFrom(	""abc"" )
+`` , @rightPad(
+)
+    @rightPad (
+    '\x00'
+)@calculatedFrom(
+""CRC32"" )body As , }  root packet packetx
+{
+//x
+//
+repeat lengthOf Logon `" ++ [28040; 24687; 31867; 22411]%N ++ runes_of_ascii "` , //	t
+}")).
+Eval vm_compute in ("<<<M45>>>" ++ check (runes_of_ascii "
+packet
+tag{ string matchKey `line1
+line2` , @tag( 0 )// c
+@calculatedFrom( ""1"" )@calculatedFrom( // " ++ [128512]%N ++ runes_of_ascii " emoji
+""a\""b"" ) float64 matchKey
+,}options
+{ crc
+    = true
+    msg_type
+    //	t
+    =
+true;
+} packet o { match  roots
+as calculatedFrom { ""// no comment""
+    // packet A { u8 x, }
+    :
+    msg_type	, ""{,}""
+    :u128, [
+    65535 , 0123456789
+]/// triple
+: body ,// " ++ [128512]%N ++ runes_of_ascii " emoji
+} ,@rightPad ( ' '	) repeat
+string_ i64_ ,
+@lengthOf(
+lengthOf )@tag( 255// packet A { u8 x, }
+)	@tag( 00 )
+char[]
+stringy
+, }
+")).
 Eval vm_compute in ("<<<M133>>>" ++ check (runes_of_ascii "MetaData  falsey
 { } root packet // `tick` ""quote"" 'q'
 o {@tag(3// " ++ [128512]%N ++ runes_of_ascii " emoji
@@ -728,312 +589,228 @@ chars )match Logon as chars{ ""`tick`"" :charz
 // " ++ [27880; 37322]%N ++ runes_of_ascii "
 :	crc } , }
 ")).
-Eval vm_compute in ("<<<M1193>>>" ++ check (runes_of_ascii "// top
-MetaData
-    // c0
-uint8x // c1
-{ char[]
-    // c3
-f32a // c4a
-  // c4b
-`// not a comment`
-    // c5
-, // c6a
-  // c6b
-float32 // c7
-roots
-    // c8
-, // c9
-char[ // c10a
-  // c10b
-7 // c11
-] // c12
-u8x // c13
-, // c14a
-  // c14b
-zchar[
-    // c15
-10
-    // c16
-] // c17
-f32a // c18
-, // c19a
-  // c19b
-u64
-    // c20
-pack // c21a
-  // c21b
-, u16
-    // c23
-pack // c24a
-  // c24b
-,
-    // c25
-}
-    // c26
-")).
-Eval vm_compute in ("<<<M1794>>>" ++ check (runes_of_ascii "// top
-options {
-    // c1a
-    // c1b
-    FixedStringPadChar = '0';
+Eval vm_compute in ("<<<M1561>>>" ++ check (runes_of_ascii "packet Frame {
+    u8 HK,
+    u8 BK,
+    u8 TK,
+    match HK as Hdr {
+        1 : HdrA,
+        2 : HdrB,
+    },
+    match BK as Body {
+        1 : BodyA,
+        2 : BodyB,
+    },
+    match TK as Trl {
+        1 : TrlA,
+    },
 }
 
-packet Q {
-    // c9a
-    // c9b
-    zchar[4] z,// c14
-    @rightPad('\x00')
-    // c18a
-    // c18b
-    char[3] n,
-    // c23
-    char[5] d,
-}// c29a
-
-// c29b
-root packet R {
-    // c33
-    Q,// c35a
-    // c35b
-    zchar[8] top,// c40a
-    // c40b
-    repeat zchar[2] zs,// c46a
-    // c46b
-}// c47")).
-Eval vm_compute in ("<<<M1670>>>" ++ check (runes_of_ascii "
-
-  root packet
-	int{
-
-match MetaDataX as
-
-    charz
-    {
-255
-:
-
-uint8x
-,
-
-65535 : // @lengthOf(
-
-u128""\" ++ [233]%N ++ runes_of_ascii """
-
-:
-	o  , 0123456789
-	:  _x 
-""{,}""	: 
-matchKey
-	// `tick` ""quote"" 'q'
-    // `tick` ""quote"" 'q'
-[
-
-4294967296
-    , 
-"""",	10 ] : charz , 
-}	,@lengthOf(  roots
-
-    )	x  @calculatedFrom(
-	""\n"" ),
-    i32	tag  ,
-    }")).
-Eval vm_compute in ("<<<M1771>>>" ++ check (runes_of_ascii "  options 
-{
-	LittleEndian
-=
-
-true ; }
-
-packet
-Logon { u8
-	x 
-,
-}
-
-    packet
-Logout
-{  u16 reason
-, } root packet Frame 
-{u8
-
-Kind , 
-u8 Kind2 , 
-match Kind as
-    Body 
-{ 1
-    :Logon	,
-[ 2 , 
-3
-	,	4
-
-]
-	: Logout
-	,
-    100
-: Logon , }
-,	match Kind2	as	Trailer{
-
-    0 :
-    Logout,} ,
-    }")).
-Eval vm_compute in ("<<<M1357>>>" ++ check (runes_of_ascii "options {
-    LittleEndian = false;
-    StringPrefixLenType = u16;
-}
-packet Heartbeat {
-    @rightPad('0') char[7] seqNo,
-    uint64 Tail,
-    i16 Flags,
-    u16 msgKind,
-}
-root packet Reject {
-    zchar[3] tag7,
-    repeat Heartbeat,
-    repeat string clOrdID,
-}
-")).
-Eval vm_compute in ("<<<M214>>>" ++ check (runes_of_ascii "MetaData tag {body Packet	, int16 // @lengthOf(
-body // `tick` ""quote"" 'q'
-, f32a uint8x , } packet falsey {
-x { char[ 7 ] lengthOf , char[] o
-    `say ""hi""`
-    // `tick` ""quote"" 'q'
-    ,
-//
-/// triple
-}
-,}
-// `tick` ""quote"" 'q'
-")).
-Eval vm_compute in ("<<<M1500>>>" ++ check (runes_of_ascii "
-
-  options
-{As
-=	true
-    MetaDataX
-    =
-    true
-}
-
-packet A
-{
-repeat
-	calculatedFrom
-`say ""hi""` ,
-
-    }	MetaData crc
-
-    {
-
-u
-crc , uint32
-
-body
-
-    ,
-    i16  stringy
-
-    `u8 x,`,}
-")).
-Eval vm_compute in ("<<<M1293>>>" ++ check (runes_of_ascii "packet A {
+packet HdrA {
     u8 a,
 }
-packet B {
+
+packet HdrB {
     u16 b,
 }
-root packet P {
-    u8 K1,
-    u8 K2,
-    match K1 as M1 {
-        1 : A,
-    },
-    match K2 as M2 {
-        1 : B,
-    },
+
+packet BodyA {
+    u32 c,
 }
-")).
-Eval vm_compute in ("<<<M73>>>" ++ check (runes_of_ascii "root
-    packet As { //
-char	charz @lengthOf( packetx
-) `{ , }`,//
-char[0123456789
-]
-MetaDataX
+
+packet BodyB {
+    u64 d,
+}
+
+packet TrlA {
+    u8 e,
+}
+
+root packet Msg {
+    Frame,
+    u8 x,
+}")).
+Eval vm_compute in ("<<<M114>>>" ++ check (runes_of_ascii "packet
+a1 {@calculatedFrom(""`tick`"" ) uint32 charz	`crlf
+line` ,
+// c
+//x
+a1 `tab	here`, }
+    options
+    {
 // " ++ [27880; 37322]%N ++ runes_of_ascii "
-// `tick` ""quote"" 'q'
-`it's` , zchar[
-    7]o `u8 x,`
-, }")).
-Eval vm_compute in ("<<<M458>>>" ++ check (runes_of_ascii "packet uint8x
-{ match pack
-    as msg_type	{
-    0123456789 :	float
-}
-,
-char[] packet //	t
-a1
-    { } options {packetx
-    = '\x00'	; u128= ""a	b""  ; }
+// " ++ [128512]%N ++ runes_of_ascii " emoji
+stringy =
+// c
+// a // b
+255 ;
+    metadata =	4294967296 pack
+    = /// triple
+string	; crc= string
+    ; }  root  packet
+crc	{ @tag(  42  )
+@calculatedFrom( ""abc""  )
+@rightPad ( '0'
+) u128 u8x
+/// triple
+//x
+,@lengthOf(len) uint16 int, }
 ")).
-Eval vm_compute in ("<<<M476>>>" ++ check (runes_of_ascii "packet uint8x
-{ match pack
-    as msg_type	{
-    0123456789 :	float
+Eval vm_compute in ("<<<M1568>>>" ++ check (runes_of_ascii "
+packet tag
+
+    {
+
 }
+packet	falsey  {string
+    charz
+	@lengthOf(
+
+    zchar)
+
 ,
-} packet //	t
-a1
-    { } } options {packetx
-    = '\x00'	; u128= ""a	b""  ; }
-")).
-Eval vm_compute in ("<<<M402>>>" ++ check (runes_of_ascii "packet uint8x
-match { pack
-    as msg_type	{
-    0123456789 :	float
-}
-,
-} packet //	t
-a1
-    { } options {packetx
-    = '\x00'	; u128= ""a	b""  ; }
-")).
-Eval vm_compute in ("<<<M1621>>>" ++ check (runes_of_ascii "
-packet
-string_
-{  @lengthOf(  float
+string // trailing space 
+    u@calculatedFrom(""" ++ [233]%N ++ runes_of_ascii "t" ++ [233]%N ++ runes_of_ascii """ )
 
-    )  // @lengthOf(
-
-BodyLength
-	{
-match uint8x
-
-    as  i64_
-	{0123456789
-	:
-	As
-
+`// not a comment` 
+,@leftPad
+    (  '0') 
+char[]
+leftPad 
+@calculatedFrom( ""a	b""
+    )
+`// not a comment`, @calculatedFrom(	""`tick`""
+)  @lengthOf( roots )repeat
+MetaDataX
     ,}
+")).
+Eval vm_compute in ("<<<M32>>>" ++ check (runes_of_ascii "packet int { T/// triple
+{ repeat _x ,	} ,
+    i64_ _x
+    `
+`, @calculatedFrom( ""x y"" )u32 A
+,  match a1 as
+    i8i8 { [ ""1""
+,
+4294967296
+]:
+    a1 ,"""":	a1
+    , 007: a1 , [ ""CRC32"" ] :Header} , int64 As, int8 a1 , //
+char[] float
+`tab	here`/// triple
+,
+repeat zchar[ 1	]u8x,
+} /// triple")).
+Eval vm_compute in ("<<<M1618>>>" ++ check (runes_of_ascii "
+options
+{ pack 	 // `tick` ""quote"" 'q'
+		=	0123456789
+}packet
+metadata{
+@leftPad(' '
+    ) stringy  @lengthOf(	_x
+    ) ,
+
+repeat u8
+int 
+`{ , }`
+,
+	@leftPad	//	t
+      (
+'0'	)repeat	char msg_type `it's`  ,
+	}
+	MetaData
+x_y_z {// trailing space 
+	}
+")).
+Eval vm_compute in ("<<<M1544>>>" ++ check (runes_of_ascii "packet
+rootA
+    { } 	 // trailing space 
+	  packet
+f32a//	t
+		{ match zchar
+    as
+
+    zchar { 65535:
+
+f32a,	7 :
+charz  // trailing space 
+
+,  ""{,}"" 
+  //	t
+	//x
+  :  Header,42:
+
+a1 // packet A { u8 x, }
 
 ,
+    } ,} ")).
+Eval vm_compute in ("<<<M1549>>>" ++ check (runes_of_ascii "
+MetaData	// a // b
 
+	o
+{  string  Foo 
+,
 }
-    ,}
+MetaData
+    msg_type
 
+    { Header len
+    `" ++ [28040; 24687; 31867; 22411]%N ++ runes_of_ascii "`
+
+, }	options
+
+{	tag
+	='0'
+;
+
+    o
+=
+
+    ""CRC32""
+
+;
+Logon
+	=
+""`tick`""
+;  // a // b
+    }
 ")).
-Eval vm_compute in ("<<<M408>>>" ++ check (runes_of_ascii "packet uint8x
-{ i8 pack
+Eval vm_compute in ("<<<M1410>>>" ++ check (runes_of_ascii "packet A {
+    match k as n {
+        [
+            ""a"", ""bb"", ""c c"", ""d"", ""e"",
+            ""f"", ""g"", ""h"", ""i"", ""j"",
+            ""k""
+        ] : B,
+        2 : C,
+    },
+}")).
+Eval vm_compute in ("<<<M481>>>" ++ check (runes_of_ascii "packet uint8x
+{ match pack
     as msg_type	{
     0123456789 :	float
 }
 ,
 } packet //	t
 a1
-    { } options {packetx
+    { } options options {packetx
     = '\x00'	; u128= ""a	b""  ; }
 ")).
-Eval vm_compute in ("<<<M500>>>" ++ check (runes_of_ascii "packet uint8x
+Eval vm_compute in ("<<<M1806>>>" ++ check (runes_of_ascii "MetaData x_y_z {
+    int32 o,
+    zchar[65535] Packet,
+    i64_ o,
+    i64 o `
+    `,
+}
+
+options {
+    x = u8;
+    // " ++ [27880; 37322]%N ++ runes_of_ascii "
+    // a // b
+}// trailing space ")).
+Eval vm_compute in ("<<<M546>>>" ++ check (runes_of_ascii "packet uint8x
 { match pack
     as msg_type	{
     0123456789 :	float
@@ -1042,203 +819,275 @@ Eval vm_compute in ("<<<M500>>>" ++ check (runes_of_ascii "packet uint8x
 } packet //	t
 a1
     { } options {packetx
-    = 	; u128= ""a	b""  ; }
+    = '\x00'	; @ u128= ""a	b""  ; }
 ")).
-Eval vm_compute in ("<<<M420>>>" ++ check (runes_of_ascii "packet uint8x
+Eval vm_compute in ("<<<M448>>>" ++ check (runes_of_ascii "packet uint8x
 { match pack
-    as 	{
+    as msg_type	{
     0123456789 :	float
-}
+=
 ,
 } packet //	t
 a1
     { } options {packetx
     = '\x00'	; u128= ""a	b""  ; }
 ")).
-Eval vm_compute in ("<<<M686>>>" ++ check (runes_of_ascii "// @lengthOf(
+Eval vm_compute in ("<<<M483>>>" ++ check (runes_of_ascii "packet uint8x
+{ match pack
+    as msg_type	{
+    0123456789 :	float
+}
+,
+} packet //	t
+a1
+    { } '\x00' {packetx
+    = '\x00'	; u128= ""a	b""  ; }
+")).
+Eval vm_compute in ("<<<M703>>>" ++ check (runes_of_ascii "// @lengthOf(
 packet i8i8 { u128 o , }
-options { f64 = true;
+options '1'{ MetaDataX = true;
     BodyLength =""packet"" x_y_z= 007
 crc //x
 = ""abc"" ;
     msg_type =
 i16 }")).
-Eval vm_compute in ("<<<M1296>>>" ++ check (runes_of_ascii "packet A {
+Eval vm_compute in ("<<<M1607>>>" ++ check (runes_of_ascii "packet A {
+    match k as n {
+        [
+            1, ""bb"", 007, ""d"", 5,
+            ""f"", 7, ""h"", 9, ""j""
+        ] : B,
+        2 : C,
+    },
+}")).
+Eval vm_compute in ("<<<M688>>>" ++ check (runes_of_ascii "// @lengthOf(
+packet i8i8 { u128 o , }
+options { MetaDataX = true;
+    BodyLength =""packet"" x_y_z= 007
+crc //x
+= ""abc"" ;
+    msg_type =
+i16")).
+Eval vm_compute in ("<<<M1763>>>" ++ check (runes_of_ascii "packet A {
+    match k as n {
+        [
+            1, 22, 007, 4, 5,
+            66, 7, 8, 9, 10
+        ] : B,
+        2 : C,
+    },
+}")).
+Eval vm_compute in ("<<<M1425>>>" ++ check (runes_of_ascii "
+
+  packet
+A
+{match k as
+n
+
+    {
+
+    [
+1
+	,
+22,	""c c""  , 
+4
+	,	5
+    ,
+    ""f"" ,
+7 , 
+8
+    ]: B
+
+    , 
+2  :
+	C }
+
+, }")).
+Eval vm_compute in ("<<<M1698>>>" ++ check (runes_of_ascii "packet B {
     u8 a,
 }
-packet B {
-    u16 b,
-}
+
 root packet P {
     u8 K,
-    match K as M {
-        1 : A,
+    match K as Body {
         1 : B,
     },
-}
-")).
-Eval vm_compute in ("<<<M1936>>>" ++ check (runes_of_ascii "
-
-  packet u 
-{
-
-    @tag(
-
-10// a // b
-  )  tag
-@lengthOf(
-    A 
-
+    u16 L @lengthOf(Body),
+}")).
+Eval vm_compute in ("<<<M1158>>>" ++ check (runes_of_ascii "MetaData leftPad { chars MetaDataX , } packet
+// c
+repeatCount { char[ 255 ] uint8x `" ++ [233]%N ++ runes_of_ascii "` , } MetaData pack { As Foo , }")).
+Eval vm_compute in ("<<<M1675>>>" ++ check (runes_of_ascii "
+MetaData
+    zchar 
+{ roots A ,  char[]
+falsey  `line1
+line2`
+	,
 // " ++ [128512]%N ++ runes_of_ascii " emoji
-// a // b
-    )
-    ,  repeat options1, }")).
-Eval vm_compute in ("<<<M1152>>>" ++ check (runes_of_ascii "MetaData leftPad { chars MetaDataX
-// c
-, } packet repeatCount { char[ 255 ] uint8x `" ++ [233]%N ++ runes_of_ascii "` , } MetaData pack { As Foo , }")).
-Eval vm_compute in ("<<<M1184>>>" ++ check (runes_of_ascii "MetaData leftPad { chars MetaDataX , } packet repeatCount { char[ 255 ] uint8x `" ++ [233]%N ++ runes_of_ascii "` , } MetaData pack { As
-// c
-Foo , }")).
-Eval vm_compute in ("<<<M893>>>" ++ check (runes_of_ascii "packet A {
+  // @lengthOf(
+	int 
+crc  ,
+}//	t
+ 
+")).
+Eval vm_compute in ("<<<M915>>>" ++ check (runes_of_ascii "packet A {
   match k as n {
-    [""a"", ""bb"", ""c c"", ""d"", ""e"", ""f"", ""g"", ""h"", ""i"", ""j"", ""k""] : B,
+    [""a"", ""bb"", 007, ""d"", ""e"", 66, ""g"", ""h"", 9, ""j"", ""k"", 12] : B
     2 : C
   },
 }")).
-Eval vm_compute in ("<<<M949>>>" ++ check (runes_of_ascii "packet A {
-    u16 len @lengthOf(body) `x
-`,
-    u32 crc @calculatedFrom(""CRC32"") `x
-`,
-    string body,
-}")).
-Eval vm_compute in ("<<<M895>>>" ++ check (runes_of_ascii "packet A {
-  match k as n {
-    [1, ""bb"", 007, ""d"", 5, ""f"", 7, ""h"", 9, ""j"", 11] : B,
-    2 : C
-  },
-}")).
-Eval vm_compute in ("<<<M904>>>" ++ check (runes_of_ascii "packet A {
-  match k as n {
-    [1, 22, 007, 4, 5, 66, 7, 8, 9, 10, 11, 12] : B,
-    2 : C
-  },
-}")).
-Eval vm_compute in ("<<<M630>>>" ++ check (runes_of_ascii "
+Eval vm_compute in ("<<<M1278>>>" ++ check (runes_of_ascii "  options{ 
+LittleEndian =	true
+	; } root	packet
+	P {	u16  a ,u32 
+Sum
+@calculatedFrom(
+""CRC32""  )	, }
+
+")).
+Eval vm_compute in ("<<<M641>>>" ++ check (runes_of_ascii "
 packet
-    a@tagsx {match u128 as lengthOf
+    asx {match u128 as lengthOf
+{
+//	t
+// `tick` ""quote"" 'q'
+255 : x ,
+    } @lengthOf ,	}")).
+Eval vm_compute in ("<<<M1519>>>" ++ check (runes_of_ascii "packet uint8x {
+    match pack as msg_type {
+        0123456789 : float,
+    },
+}
+
+packet a1 {
+}")).
+Eval vm_compute in ("<<<M642>>>" ++ check (runes_of_ascii "
+packet
+    asx {match u128 as lengthOf
+{'1'
+//	t
+// `tick` ""quote"" 'q'
+255 : x ,
+    } ,	}")).
+Eval vm_compute in ("<<<M638>>>" ++ check (runes_of_ascii "
+packet
+    asx {match u128 as leng""thOf
 {
 //	t
 // `tick` ""quote"" 'q'
 255 : x ,
     } ,	}")).
-Eval vm_compute in ("<<<M229>>>" ++ check (runes_of_ascii "// a // b
-options{
-Foo
-= '\x00'
-    pack
-= zchar[ 65535]
-// " ++ [128512]%N ++ runes_of_ascii " emoji
-//x
-;	int = ""\n"" ;	}
-")).
-Eval vm_compute in ("<<<M856>>>" ++ check (runes_of_ascii "packet A {
+Eval vm_compute in ("<<<M597>>>" ++ check (runes_of_ascii "
+packet
+    asx {match u128 as lengthOf
+{
+//	t
+// `tick` ""quote"" 'q'
+255  x ,
+    } ,	}")).
+Eval vm_compute in ("<<<M860>>>" ++ check (runes_of_ascii "packet A {
   match k as n {
-    [1, ""bb"", 007, ""d"", 5, ""f"", 7, ""h""] : B,
+    [1, 22, ""c c"", 4, 5, ""f"", 7, 8] : B,
     2 : C
   },
 }")).
-Eval vm_compute in ("<<<M829>>>" ++ check (runes_of_ascii "packet A {
-  match k as n {
-    [""a"", ""bb"", ""c c"", ""d"", ""e"", ""f""] : B
-    2 : C
-  },
-}")).
-Eval vm_compute in ("<<<M966>>>" ++ check (runes_of_ascii "packet A {
-    u32 crc @calculatedFrom(""x\
-y""),
-    @calculatedFrom(""x\
-y"") u8 y,
-}")).
-Eval vm_compute in ("<<<M835>>>" ++ check (runes_of_ascii "packet A {
-  match k as n {
-    [1, 22, ""c c"", 4, 5, ""f""] : B
-    2 : C
-  },
-}")).
-Eval vm_compute in ("<<<M345>>>" ++ check (runes_of_ascii "
-options
-{ } // " ++ [128512]%N ++ runes_of_ascii " emoji
-options { float // `tick` ""quote"" 'q'
-=	65535 }
+Eval vm_compute in ("<<<M582>>>" ++ check (runes_of_ascii "
+packet
+    asx {match u128 as 
+{
+//	t
+// `tick` ""quote"" 'q'
+255 : x ,
+    } ,	}")).
+Eval vm_compute in ("<<<M1916>>>" ++ check (runes_of_ascii "
+MetaData
+x
+{x
+    Packet ,
+i32	lengthOf
+	, 	 // `tick` ""quote"" 'q'
+	  }
 ")).
-Eval vm_compute in ("<<<M809>>>" ++ check (runes_of_ascii "packet A {
-  match k as n {
-    [1, 22, ""c c"", 4] : B
-    2 : C
-  },
-}")).
-Eval vm_compute in ("<<<M1290>>>" ++ check (runes_of_ascii "root packet P {
-    u8 s_u8,
-    repeat u8 r_u8,
-    u16 b_len,
-}
+Eval vm_compute in ("<<<M601>>>" ++ check (runes_of_ascii "
+packet
+    asx {match u128 as lengthOf
+{
+//	t
+// `tick` ""quote"" 'q'
+255")).
+Eval vm_compute in ("<<<M108>>>" ++ check (runes_of_ascii "packet int {}
+options {leftPad ='0' ;metadata= char[] Foo=
+'0' ; }
 ")).
-Eval vm_compute in ("<<<M939>>>" ++ check (runes_of_ascii "MetaData M {
-    u8 x `a
-    b
-  c`,
-    T t `a
-    b
-  c`,
-}")).
-Eval vm_compute in ("<<<M1088>>>" ++ check (runes_of_ascii "packet A { @tag(1) // a
- @leftPad('0') // b
- char[4] x, }")).
-Eval vm_compute in ("<<<M1199>>>" ++ check (runes_of_ascii "packet // c
-body { i32 f32a `{ , }` , } options { }")).
-Eval vm_compute in ("<<<M1566>>>" ++ check (runes_of_ascii "MetaData M {
-    u8 x `
-    `,
-    T t `
-    `,
-}")).
-Eval vm_compute in ("<<<M1221>>>" ++ check (runes_of_ascii "// top
-packet // c0
-x // c1
-{ // c2
-} // c3
-")).
-Eval vm_compute in ("<<<M752>>>" ++ check (runes_of_ascii "repeatCount u32 as false uint64 0 @tag(")).
-Eval vm_compute in ("<<<M928>>>" ++ check (runes_of_ascii "root packet A {
-    u8 x `a
-b`,
-}")).
-Eval vm_compute in ("<<<M959>>>" ++ check (runes_of_ascii "packet A {
-    u8 x `tab
-	x`,
-}")).
-Eval vm_compute in ("<<<M923>>>" ++ check (runes_of_ascii "packet A {
-    u8 x `a
-b`,
-}")).
-Eval vm_compute in ("<<<M1526>>>" ++ check (runes_of_ascii "// c x
-    packet A { }
+Eval vm_compute in ("<<<M1431>>>" ++ check (runes_of_ascii "
 
+  packet
+
+body
+{ i32
+f32a `{ , }`
+    ,
+}  options
+{}	// c
 ")).
-Eval vm_compute in ("<<<M1106>>>" ++ check (runes_of_ascii "MetaData
+Eval vm_compute in ("<<<M948>>>" ++ check (runes_of_ascii "packet A {
+    B b `x
+`,
+    B `x
+`,
+    repeat B bs `x
+`,
+}")).
+Eval vm_compute in ("<<<M27>>>" ++ check (runes_of_ascii "options{Logon = """ ++ [28040; 24687]%N ++ runes_of_ascii """
+    ; BodyLength =
+    false
+; }
+")).
+Eval vm_compute in ("<<<M1203>>>" ++ check (runes_of_ascii "packet body { // c
+i32 f32a `{ , }` , } options { }")).
+Eval vm_compute in ("<<<M1645>>>" ++ check (runes_of_ascii "root packet A {
+    u8 x `a
+        b
+      c`,
+}")).
+Eval vm_compute in ("<<<M1535>>>" ++ check (runes_of_ascii "options {
+    trueish = '0';
+    a1 = u64;
+}")).
+Eval vm_compute in ("<<<M1493>>>" ++ check (runes_of_ascii "  options 
+{
+
+a= 1	;  // a
+	b=2// b
+}")).
+Eval vm_compute in ("<<<M424>>>" ++ check (runes_of_ascii "packet uint8x
+{ match pack
+    as")).
+Eval vm_compute in ("<<<M1586>>>" ++ check (runes_of_ascii "options {
+    options1 = ' ';
+}")).
+Eval vm_compute in ("<<<M1077>>>" ++ check (runes_of_ascii "MetaData M {
+}// c
+options {}")).
+Eval vm_compute in ("<<<M1084>>>" ++ check (runes_of_ascii "packet A { // a
+ u8 x, }")).
+Eval vm_compute in ("<<<M1108>>>" ++ check (runes_of_ascii "MetaData tag
 // c
-tag { }")).
-Eval vm_compute in ("<<<M1128>>>" ++ check (runes_of_ascii "// c
-MetaData u { }")).
-Eval vm_compute in ("<<<M1017>>>" ++ check (runes_of_ascii "// c" ++ [8233]%N ++ runes_of_ascii "
-packet A {
+{ }")).
+Eval vm_compute in ("<<<M1134>>>" ++ check (runes_of_ascii "MetaData u { // c
 }")).
-Eval vm_compute in ("<<<M999>>>" ++ check (runes_of_ascii "packet A {
-}// c" ++ [8192]%N)).
-Eval vm_compute in ("<<<M761>>>" ++ check (runes_of_ascii "{];z" ++ [65533]%N ++ runes_of_ascii """t" ++ [65533; 65533; 65533]%N ++ runes_of_ascii "XKU" ++ [65533; 2]%N)).
-Eval vm_compute in ("<<<M84>>>" ++ check (runes_of_ascii " // " ++ [27880; 37322]%N)).
-Eval vm_compute in ("<<<M733>>>" ++ check (runes_of_ascii "
+Eval vm_compute in ("<<<M1031>>>" ++ check (runes_of_ascii "packet A {
+}
+// c" ++ [11]%N)).
+Eval vm_compute in ("<<<M1019>>>" ++ check (runes_of_ascii "packet A {
+}// c" ++ [8239]%N)).
+Eval vm_compute in ("<<<M1071>>>" ++ check (runes_of_ascii "packet A {
+}
 
+
+")).
+Eval vm_compute in ("<<<M741>>>" ++ check ([65533; 65533]%N ++ runes_of_ascii "1" ++ [65533]%N ++ runes_of_ascii "dcV")).
+Eval vm_compute in ("<<<M111>>>" ++ check (runes_of_ascii "
 
 ")).
